@@ -226,3 +226,99 @@ def int_conv(b):
     if len(b) != 2:
         return -1
     return b[0] * 256 + b[1], (b[0] << 8) | b[1]
+
+
+def loop_break_continue(n):
+    t = 0
+    for k in range(6):
+        if k == n:
+            break
+        if k % 2 == 0:
+            continue
+        t += k
+    return t
+
+
+def nested_loops(n):
+    t = 0
+    for i in range(3):
+        for j in range(3):
+            if i * 3 + j == n:
+                return t
+            t += 1
+    return -t
+
+
+def return_in_try_finally(b):
+    r = [0]
+    try:
+        if len(b) > 2:
+            return b[2]
+        r[0] = 1
+    finally:
+        r[0] += 10
+    return r[0]
+
+
+def chained_assign_and_swap(a, b):
+    x = y = a
+    x, b = b, x
+    return x, y, b
+
+
+def none_and_membership(a, b):
+    v = None if a < 0 else a
+    if v is None:
+        return -1
+    if v not in (1, 2, 3) and b is not None:
+        return 0
+    return v
+
+
+def default_and_keyword(a):
+    def f(x, y=2, *, z=3):
+        return x * 100 + y * 10 + z
+    return f(a), f(a, 5), f(a, z=7), f(x=1, y=a)
+
+
+def closure_counter(a):
+    acc = []
+
+    def add(v):
+        acc.append(v + a)
+        return len(acc)
+    add(1)
+    add(2)
+    return acc[0] + acc[1], add(3)
+
+
+def list_methods(a, b):
+    l = [a]
+    l.append(b)
+    l.extend([a + b])
+    l.insert(0, 9)
+    last = l.pop()
+    return l[0], l[1], l[2], last, len(l)
+
+
+def dict_methods(a):
+    d = {"x": a}
+    d["y"] = a + 1
+    g = d.get("z", -5)
+    has = "x" in d
+    p = d.pop("x")
+    return g, has, p, len(d), d.get("y")
+
+
+def power_abs(a):
+    if a < -50 or a > 50:
+        return 0
+    return abs(a), a * a, -a
+
+
+def bytes_ctor(a):
+    return bytes([a, 255 - a]), bytes(3), len(bytes(2) + bytes([a]))
+
+
+def overflow_paths(n):
+    return n.to_bytes(1, byteorder="big", signed=False)
